@@ -37,6 +37,7 @@ cocls::async<void> coro_contender(Ctx &c, int me, int rounds, int relstyle) {
         dsim::cell_add(ACTIVE + me, -1);
         if (relstyle == 0) own.release();
         else if (relstyle == 1) co_await own.release();
+        else if (relstyle == 3) { std::thread t([o = std::move(own)]() mutable { o.release(); }); t.join(); }   // released by another thread
         else { /* destructor */ }
     }
 }
@@ -63,16 +64,23 @@ void dsim_scenario() {
     Ctx c;
     std::vector<std::thread> th;
     int rounds[4], kind[4], rel[4];
-    for (int i = 0; i < n; i++) { kind[i] = dsim::choose(3); rounds[i] = 1 + dsim::choose(3); rel[i] = dsim::choose(3); }
+    for (int i = 0; i < n; i++) { kind[i] = dsim::choose(4); rounds[i] = 1 + dsim::choose(3); rel[i] = dsim::choose(4); }
     dsim::plan_note("n=%d", n);
     for (int i = 0; i < n; i++) dsim::plan_note(" [%d:k%d r%d rel%d]", i, kind[i], rounds[i], rel[i]);
     for (int i = 0; i < n; i++) {
         th.emplace_back([&, i] {
             if (kind[i] == 0) coro_contender(c, i, rounds[i], rel[i]).join();
+            else if (kind[i] == 3) {
+                // two coroutines of one thread contend with each other and with the rest (ids i and i+4)
+                auto f1 = coro_contender(c, i, rounds[i], rel[i]).start();
+                auto f2 = coro_contender(c, i + 4, rounds[i], (rel[i] + 1) % 4).start();
+                f1.wait(); f2.wait();
+            }
             else blocking_contender(c, i, rounds[i], kind[i] - 1);
         });
     }
     for (auto &t : th) t.join();
+    for (int i = 0; i < n; i++) if (kind[i] == 3 && dsim::cell_get(GRANTS + i + 4) != rounds[i]) dsim::fail("C07.grants", "second coroutine of thread %d was granted %ld times for %d requests", i, dsim::cell_get(GRANTS + i + 4), rounds[i]);
     for (int i = 0; i < n; i++) if (dsim::cell_get(GRANTS + i) != rounds[i]) dsim::fail("C07.grants", "contender %d was granted %ld times for %d requests", i, dsim::cell_get(GRANTS + i), rounds[i]);
     auto o = c.mx.try_lock();
     if (!o) dsim::fail("C07.locked_at_end", "mutex still locked after every owner released");
